@@ -72,46 +72,46 @@ def rotR : T α → Except Fault (T α)
   | node (node ll la _ lr) a c r => .ok (node ll la c (node lr a true r))
   | _ => .error .nullDeref
 
-/-- `move_red_left` -/
-def moveRedLeft (t : T α) : Except Fault (T α) := do
-  let t ← flip t
-  match t with
+/-- the "2-3-4 exclusive" tail of `move_red_left` -/
+def mrlTail : T α → Except Fault (T α)
+  | nil => .error .nullDeref
+  | node l2 a2 c2 r2 =>
+    if isRed (right r2) then rotL r2 >>= fun r3 => .ok (node l2 a2 c2 r3)
+    else .ok (node l2 a2 c2 r2)
+
+/-- `move_red_left` after the first `flip_color` -/
+def mrlBody : T α → Except Fault (T α)
   | nil => .error .nullDeref
   | node l a c r =>
     if isRed (left r) then
-      let r' ← rotR r
-      let t ← rotL (node l a c r')
-      let t ← flip t
-      match t with
-      | nil => .error .nullDeref
-      | node l2 a2 c2 r2 =>
-        -- 2-3-4 exclusive
-        if isRed (right r2) then
-          let r3 ← rotL r2
-          pure (node l2 a2 c2 r3)
-        else pure (node l2 a2 c2 r2)
-    else pure (node l a c r)
+      rotR r >>= fun r' => rotL (node l a c r') >>= fun t => flip t >>= mrlTail
+    else .ok (node l a c r)
+
+/-- `move_red_left` -/
+def moveRedLeft (t : T α) : Except Fault (T α) := flip t >>= mrlBody
+
+/-- `move_red_right` after the first `flip_color` -/
+def mrrBody (t : T α) : Except Fault (T α) :=
+  if isRed (left (left t)) then rotR t >>= flip else .ok t
 
 /-- `move_red_right` -/
-def moveRedRight (t : T α) : Except Fault (T α) := do
-  let t ← flip t
-  if isRed (left (left t)) then
-    let t ← rotR t
-    flip t
-  else pure t
+def moveRedRight (t : T α) : Except Fault (T α) := flip t >>= mrrBody
+
+/-- first half of `fix`: rotate a right red to the left -/
+def fixR : T α → Except Fault (T α)
+  | nil => .error .nullDeref
+  | node l a c r =>
+    if isRed r then
+      -- 2-3-4 exclusive
+      (if isRed (left r) then rotR r else .ok r) >>= fun r' => rotL (node l a c r')
+    else .ok (node l a c r)
+
+/-- second half of `fix` (and of the fix-ups in `put_obj`): rotate a left red-red to the right -/
+def fixL (t : T α) : Except Fault (T α) :=
+  if isRed (left t) && isRed (left (left t)) then rotR t else .ok t
 
 /-- `fix` (LLRB234: no 4-node split on the way up) -/
-def fix (t : T α) : Except Fault (T α) := do
-  let t ←
-    match t with
-    | nil => .error .nullDeref
-    | node l a c r =>
-      if isRed r then
-        -- 2-3-4 exclusive
-        let r' ← if isRed (left r) then rotR r else pure r
-        rotL (node l a c r')
-      else pure (node l a c r)
-  if isRed (left t) && isRed (left (left t)) then rotR t else pure t
+def fix (t : T α) : Except Fault (T α) := fixR t >>= fixL
 
 /-- `find_min` (NULL gives ENOENT = `none`) -/
 def findMin : T α → Option α
@@ -124,19 +124,21 @@ def findMax : T α → Option α
   | node _ a _ nil => some a
   | node _ _ _ r => findMax r
 
+/-- `if (!is_red(obj->left) && !is_red(obj->left->left)) obj = move_red_left(obj);` -/
+def minPrep (t : T α) : Except Fault (T α) :=
+  if !isRed (left t) && !isRed (left (left t)) then moveRedLeft t else .ok t
+
 /-- `remove_min` -/
 def removeMin : (fuel : Nat) → T α → Except Fault (T α)
   | 0, _ => .error .outOfFuel
   | _, nil => .error .nullDeref
   | fuel + 1, node l a c r =>
-    if isNil l then pure nil              -- leaf: freed
-    else do
-      let t ← if !isRed l && !isRed (left l) then moveRedLeft (node l a c r) else pure (node l a c r)
+    if isNil l then .ok nil              -- leaf: freed
+    else
+      minPrep (node l a c r) >>= fun t =>
       match t with
       | nil => .error .nullDeref
-      | node l1 a1 c1 r1 =>
-        let l2 ← removeMin fuel l1
-        fix (node l2 a1 c1 r1)
+      | node l1 a1 c1 r1 => removeMin fuel l1 >>= fun l2 => fix (node l2 a1 c1 r1)
 
 section keyed
 variable {K : Type} (cmp : K → K → Ordering) (key : α → K)
@@ -150,85 +152,84 @@ def find (k : K) : T α → Option α × Nat
     | .lt => let (x, n) := find k l; (x, n + 1)
     | .gt => let (x, n) := find k r; (x, n + 1)
 
+/-- first fix-up of `put_obj` on the way up: a right-leaning red -/
+def putUp1 (t : T α) : Except Fault (T α) :=
+  if isRed (right t) && !isRed (left t) then rotL t else .ok t
+
 /-- the fix-ups of `put_obj` on the way up (LLRB234: no split on the way up) -/
-def putUp (t : T α) : Except Fault (T α) := do
-  let t ← if isRed (right t) && !isRed (left t) then rotL t else pure t
-  if isRed (left t) && isRed (left (left t)) then rotR t else pure t
+def putUp (t : T α) : Except Fault (T α) := putUp1 t >>= fixL
+
+/-- split 4-nodes on the way down (2-3-4 exclusive) -/
+def splitFour (t : T α) : Except Fault (T α) :=
+  if isRed (left t) && isRed (right t) then flip t else .ok t
 
 /-- `put_obj`. `new` is the payload of a freshly allocated node, `onDup` the in-place value
     replacement for an existing key. Returns the new subtree and whether a node was added
     (`tbl->num++`). -/
 def put (new : α) (onDup : α → α) : (fuel : Nat) → T α → Except Fault (T α × Bool)
   | 0, _ => .error .outOfFuel
-  | _, nil => pure (node nil new true nil, true)
-  | fuel + 1, node l a c r => do
-    -- split 4-nodes on the way down (2-3-4 exclusive)
-    let t ← if isRed l && isRed r then flip (node l a c r) else pure (node l a c r)
+  | _, nil => .ok (node nil new true nil, true)
+  | fuel + 1, node l a c r =>
+    splitFour (node l a c r) >>= fun t =>
     match t with
     | nil => .error .nullDeref
     | node l1 a1 c1 r1 =>
       match cmp (key new) (key a1) with
-      | .eq =>
-        let t ← putUp (node l1 (onDup a1) c1 r1)
-        pure (t, false)
-      | .lt =>
-        let (l2, added) ← put new onDup fuel l1
-        let t ← putUp (node l2 a1 c1 r1)
-        pure (t, added)
-      | .gt =>
-        let (r2, added) ← put new onDup fuel r1
-        let t ← putUp (node l1 a1 c1 r2)
-        pure (t, added)
+      | .eq => putUp (node l1 (onDup a1) c1 r1) >>= fun t => .ok (t, false)
+      | .lt => put new onDup fuel l1 >>= fun p => putUp (node p.1 a1 c1 r1) >>= fun t => .ok (t, p.2)
+      | .gt => put new onDup fuel r1 >>= fun p => putUp (node l1 a1 c1 p.1) >>= fun t => .ok (t, p.2)
+
+/-- going left in `remove_obj`: move red left when the left child is a 2-node -/
+def leftPrep (t : T α) : Except Fault (T α) :=
+  if !isNil (left t) && (!isRed (left t) && !isRed (left (left t))) then moveRedLeft t else .ok t
+
+/-- going right in `remove_obj`, first step: lean a red left child to the right -/
+def rightPrep1 (t : T α) : Except Fault (T α × Bool) :=
+  if isRed (left t) then rotR t >>= fun t => .ok (t, true) else .ok (t, false)
+
+/-- going right in `remove_obj`, second step: move red right when the right child is a 2-node -/
+def rightPrep2 (t : T α) (recmp : Bool) : Except Fault (T α × Bool) :=
+  if !isNil (right t) && (!isRed (right t) && !isRed (left (right t))) then
+    moveRedRight t >>= fun t => .ok (t, true)
+  else .ok (t, recmp)
 
 /-- `remove_obj`. `copyKV dst src` is "free dst's key/value, copy src's into dst" (the node
     itself, with its traversal fields, stays). Returns the new subtree and whether ENOENT was
     raised (`errno = ENOENT`; nothing resets it afterwards). -/
 def remove (copyKV : α → α → α) (k : K) : (fuel : Nat) → T α → Except Fault (T α × Bool)
   | 0, _ => .error .outOfFuel
-  | _, nil => pure (nil, true)
+  | _, nil => .ok (nil, true)
   | fuel + 1, node l a c r =>
     match cmp k (key a) with
-    | .lt => do
-      -- move red left
-      let t ← if !isNil l && (!isRed l && !isRed (left l)) then moveRedLeft (node l a c r)
-              else pure (node l a c r)
+    | .lt =>
+      leftPrep (node l a c r) >>= fun t =>
       match t with
       | nil => .error .nullDeref
       | node l1 a1 c1 r1 =>
-        let (l2, enoent) ← remove copyKV k fuel l1
-        let t ← fix (node l2 a1 c1 r1)
-        pure (t, enoent)
-    | o => do   -- right or equal
-      let (t, recmp) ← if isRed l then do let t ← rotR (node l a c r); pure (t, true)
-                       else pure (node l a c r, false)
-      match t with
+        remove copyKV k fuel l1 >>= fun p => fix (node p.1 a1 c1 r1) >>= fun t => .ok (t, p.2)
+    | o =>   -- right or equal
+      rightPrep1 (node l a c r) >>= fun p1 =>
+      match p1.1 with
       | nil => .error .nullDeref
       | node l1 a1 c1 r1 =>
         -- remove if equal at the bottom
-        let o1 := if isNil r1 && recmp then cmp k (key a1) else o
-        let recmp := if isNil r1 then false else recmp
-        if isNil r1 && o1 == .eq then pure (nil, false)       -- freed, num--
-        else do
-          -- move red right
-          let (t, recmp) ← if !isNil r1 && (!isRed r1 && !isRed (left r1)) then do
-                               let t ← moveRedRight (node l1 a1 c1 r1); pure (t, true)
-                             else pure (node l1 a1 c1 r1, recmp)
-          match t with
+        let o1 := if isNil r1 && p1.2 then cmp k (key a1) else o
+        let recmp := if isNil r1 then false else p1.2
+        if isNil r1 && o1 == .eq then .ok (nil, false)       -- freed, num--
+        else
+          rightPrep2 (node l1 a1 c1 r1) recmp >>= fun p2 =>
+          match p2.1 with
           | nil => .error .nullDeref
           | node l2 a2 c2 r2 =>
-            let o2 := if recmp then cmp k (key a2) else o1
+            let o2 := if p2.2 then cmp k (key a2) else o1
             if o2 == .eq then
               -- copy min to this then remove min
               match findMin r2 with
               | none => .error .assertFail
               | some m =>
-                let r3 ← removeMin fuel r2
-                let t ← fix (node l2 (copyKV a2 m) c2 r3)
-                pure (t, false)
-            else do
-              let (r3, enoent) ← remove copyKV k fuel r2
-              let t ← fix (node l2 a2 c2 r3)
-              pure (t, enoent)
+                removeMin fuel r2 >>= fun r3 => fix (node l2 (copyKV a2 m) c2 r3) >>= fun t => .ok (t, false)
+            else
+              remove copyKV k fuel r2 >>= fun p => fix (node l2 a2 c2 p.1) >>= fun t => .ok (t, p.2)
 
 end keyed
 
